@@ -136,7 +136,12 @@ func H_Missing() {
 	seed := vp.Param("seed", 3)
 	sameVersion := vp.Param("same_version", 1)
 	version := vp.Int64("version")
-	db := util.NewMemoryNodeDB()
+	// the trie's store: a flat memory store, or a layered store (block level over a base level)
+	// with the seed in the block level
+	var db util.NodeDB = util.NewMemoryNodeDB()
+	if vp.Param("layered", 0) == 1 {
+		db = util.NewLevelNodeDB(util.NewMemoryNodeDB(), util.NewMemoryNodeDB(), false)
+	}
 	t := mptlib.NewTrie(db, version, nil)
 	ref := mptlib.NewRef()
 	mptlib.ApplySeed(t, ref, seed)
